@@ -13,6 +13,10 @@ use std::time::{SystemTime, UNIX_EPOCH}; // import without risk of name clashing
 
 #[cfg(not(target_arch = "wasm32"))]
 pub fn unix_timestamp() -> u64 {
+    #[cfg(bp7_verif)]
+    if let Some(ms) = crate::verif_hooks::clock_ms() {
+        return ms / 1000;
+    }
     SystemTime::now()
         .duration_since(UNIX_EPOCH)
         .expect("Time went backwards!!")
@@ -26,6 +30,10 @@ pub fn unix_timestamp() -> u64 {
 
 #[cfg(not(target_arch = "wasm32"))]
 pub fn ts_ms() -> u64 {
+    #[cfg(bp7_verif)]
+    if let Some(ms) = crate::verif_hooks::clock_ms() {
+        return ms;
+    }
     SystemTime::now()
         .duration_since(UNIX_EPOCH)
         .expect("Time went backwards!!")
